@@ -274,6 +274,40 @@ func run(c *vm.Ctx) {
 			c.Sample("document", map[string]any{"doc_hex": vm.Hex(doc), "network": network, "fields": len(fields)})
 		}
 	}
+	// huge declared list lengths (far beyond the input): must come back as errors promptly, whatever the element type.
+	// (Arrays of bytes/ints/longs are left out: their allocation is proportional to the declared length by design, see DESIGN A.3.)
+	if c.Shard == 0 {
+		type big struct {
+			A string
+			B [40]int64
+			C map[string]any
+		}
+		for _, cnt := range []uint32{0x7fffffff, 0x40000000, 0x10000000, 0x01000000} {
+			for _, et := range []byte{refnbt.Compound, refnbt.String, refnbt.List, refnbt.Byte, refnbt.Long} {
+				doc := []byte{refnbt.List, et, byte(cnt >> 24), byte(cnt >> 16), byte(cnt >> 8), byte(cnt)}
+				doc = append(doc, 0, 0, 0, 0) // a few bytes of "content"
+				for _, tgt := range []func() any{func() any { return new(any) }, func() any { return new([]big) }, func() any { return new([]string) }, func() any { return new([][]int64) }, func() any { return new([]map[string]any) }} {
+					v := tgt()
+					in := &input{b: doc, network: true, origin: fmt.Sprintf("list-count=%#x", cnt)}
+					c.Inflight(in.origin + " " + vm.Hex(doc))
+					var err error
+					if c.Guard("huge-list", in.wit(fmt.Sprintf("%T", v)), func() {
+						d := nbt.NewDecoder(bytes.NewReader(doc))
+						d.NetworkFormat(true)
+						_, err = d.Decode(v)
+					}) {
+						continue
+					}
+					c.Eval(vm.Hash64(doc, []byte(fmt.Sprintf("%T", v))), true)
+					if err == nil {
+						c.Violation("huge-list/success", fmt.Sprintf("a list declaring %d elements in a 10-byte document decoded without error into %T", cnt, v), in.wit(fmt.Sprintf("%T", v))())
+					} else {
+						c.Cover("huge-list-count.rejected")
+					}
+				}
+			}
+		}
+	}
 	// random byte strings; all strings of length <= 2 (shard 0)
 	if c.Shard == 0 {
 		for a := 0; a < 256; a++ {
